@@ -12,9 +12,24 @@ import (
 // (healthy invocation, failure reset, timeout reset). Hold targets are drawn from it by index, so edits to the
 // tree move the targets with them and every process computes the same list.
 var (
-	inventoryOnce sync.Once
-	inventory     []string
+	inventoryOnce   sync.Once
+	inventory       []string
+	inventoryPUOnce sync.Once
+	inventoryPU     []string
 )
+
+// InventoryPU returns the sorted signatures of the explicit unlock points (an Unlock / RUnlock statement after which
+// the function goes on) the same fixed run reaches in the unlock-yield pass.
+func InventoryPU(t *testing.T) []string {
+	inventoryPUOnce.Do(func() {
+		res := Execute(t, &Job{ID: -2, Prop: "INVENTORY", Seed: 1, WantLog: true, Knobs: map[string]int{"uyield": 1}})
+		for s := range res.PUHits {
+			inventoryPU = append(inventoryPU, s)
+		}
+		sort.Strings(inventoryPU)
+	})
+	return inventoryPU
+}
 
 func init() {
 	Scenarios["INVENTORY"] = func(r *Run, job *Job) {
